@@ -276,14 +276,30 @@ class Kernel:
         if flt[0] != "cmp" or flt[1] != "==" or loop.ckind != "list":
             return None
         sides = (flt[2], flt[3])
+        rounding = None
+        if all(x[0] == "call" and x[1] == "round" and len(x[2]) == 2 for x in sides) and sides[0][2][1] == sides[1][2][1]:
+            # round(min(values), d) == round(value, d): rounding is monotone, so this is the arg-set of the rounded keys
+            rounding = sides[0][2][1]
+            sides = (sides[0][2][0], sides[1][2][0])
         ext = [x for x in sides if x[0] == "call" and x[1] in ("max", "min") and len(x[2]) == 1]
         if len(ext) != 1:
             return None
         ext = ext[0]
         cur = sides[0] if sides[1] == ext else sides[1]
         kle, extra = self._list_arg(ext[2][0])
+        if kle is not None and kle[1] != TRUE:
+            # `if label in [all labels of the same list]` is no restriction
+            f0 = kle[1]
+            if f0[0] == "cmp" and f0[1] == "in" and f0[2] == ("p",):
+                inner = self.listexpr(f0[3]) if isinstance(f0[3], tuple) else None
+                if inner is not None and inner[0] == kle[0] and inner[1] == TRUE and inner[2] == ("p",) and inner[3]:
+                    kle = (kle[0], TRUE, kle[2], kle[3])
         if kle is None or kle[1] != TRUE or len(extra) > 1:
             return None
+        if rounding is not None:
+            rd = self.canon_top(rounding)
+            kle = (kle[0], kle[1], simp(("call", "round", (kle[2], rd), ())), kle[3])
+            cur = simp(("call", "round", (cur, rounding), ()))
         src_t = loop.source
         elem = ("elem", loop.id)
         if src_t[0] == "call" and src_t[1] == "zip" and len(src_t[2]) == 2:
@@ -300,7 +316,16 @@ class Kernel:
         else:
             le = self.listexpr(src_t)
             base = le[0] if le is not None and le[1] == TRUE and le[2] == ("e",) else self.canon_top(src_t)
-            if base != kle[0] or self.canon(cur, loop.id) != kle[2]:
+            key_mismatch = None
+            if base == kle[0] and self.canon(cur, loop.id) != kle[2]:
+                a_, b_ = kle[2], self.canon(cur, loop.id)
+                # same shape, another field of the successor: the optimum is taken over one quantity, membership is judged on another
+                fa = [x for x in _walk(a_) if x[0] == "sf"]
+                fb = [x for x in _walk(b_) if x[0] == "sf"]
+                if len(fa) == 1 and len(fb) == 1 and fa[0][1] == fb[0][1] and fa[0][2] != fb[0][2] \
+                        and subst(a_, lambda x: fb[0] if x == fa[0] else None) == b_:
+                    key_mismatch = (a_, b_)
+            if base != kle[0] or (self.canon(cur, loop.id) != kle[2] and key_mismatch is None):
                 return None
             label = self.canon(loop.elt, loop.id)
         kws = dict(ext[3])
@@ -309,8 +334,12 @@ class Kernel:
             init = self.canon_top(extra[0])
         of = KFold(kind="EXT", sense=ext[1], strict=True, init=init, term=kle[2], source=base, whole=kle[3] and loop.whole, loop=None,
                    via="builtin " + ext[1])
-        return KFold(kind="ARGSET", of=of, label=label, ties=True, init=("list", ()), source=base, filter=TRUE,
-                     whole=kle[3] and loop.whole, loop=loop, via="filter by == %s(...)" % ext[1])
+        kf = KFold(kind="ARGSET", of=of, label=label, ties=True, init=("list", ()), source=base, filter=TRUE,
+                   whole=kle[3] and loop.whole, loop=loop, via="filter by == %s(...)" % ext[1])
+        kf.key_mismatch = locals().get("key_mismatch")
+        if kf.key_mismatch:
+            of.term = kf.key_mismatch[1]        # the actions are listed by this key ...
+        return kf
 
     def _src(self, loop):
         s = loop.source
@@ -399,6 +428,19 @@ class Kernel:
             k.term = self.canon(fo.term, loop.id)
             k.init = self.canon_top(init)
         return k
+
+
+def _walk(t):
+    out = []
+
+    def w(x):
+        if isinstance(x, tuple):
+            if x and isinstance(x[0], str):
+                out.append(x)
+            for y in x:
+                w(y)
+    w(t)
+    return out
 
 
 def const_value(t):
